@@ -529,7 +529,7 @@ def run(ctx):
         "Timedelta.total_seconds, date_range) - sampled by the wrapper-level correspondence",
         "zones whose UTC offset changes inside the series (DST) are not generated",
     ]
-    proved = cm.prove(ctx)
+    proved = cm.prove_with_kernels(ctx, ["c_var2h"])
     cm.use_impl()
     rng = ctx.rng
     terms, replays, cases = [], [], []
